@@ -41,6 +41,9 @@ def host_tables():
 
 def run(c):
     try:
+        if c.get('unprinted'):
+            D.trace_of(c)
+            return 'decoded'
         return D.text_of(D.impl_fn(c))
     except Exception as e:
         return 'raise ' + core.err_name(e)
@@ -82,6 +85,59 @@ def ambient_section(rep, rng, tier):
     ambient.section(rep, rng, tier, 'C18', 'kdv.props.C18:ambient_answer', cases)
 
 
+# tables a known reader consults while DECODING (in the handler): a record that is never printed can differ between hosts only
+# through these; SOL_SOCKET (K2e) and the errno names (K2a) are consulted when the text is built
+READ_WHILE_DECODING = ('addressFamily', 'socketKind', 'signals')
+
+
+def unprinted_section(rep, rng, tier):
+    """A record that a request DECODES but never prints — a process filter hides its thread, or the request is for callstacks —
+    cannot make the request end differently on another host, unless a known reader consults its table while decoding (the
+    socket family / kind lookups of K2c / K2d happen in the handler).  Every known reader and candidate decoder on windows with
+    small numbers, both SOL_SOCKET values and unnamed option numbers in every START position: decoded without str() on this
+    host and with Darwin's tables; `decoded` / the same exception on both."""
+    sec = rep.section('unprinted-records')
+    names = sorted(set(ENUM_READERS) | set(candidates() if rep.broken or tier != 'quick' else ()))
+    grid = sorted(set(range(0, 48)) | {0xffff, 0x1131, 0x80, 0x100, 0x1001, 0x1002, 0x4000, (1 << 32) - 1})
+    sec['rule'] = ('%d decoders (known host readers%s) x 4 START positions x %d numbers (0..47, both SOL_SOCKET values, unnamed '
+                   'option numbers), the handler run WITHOUT str() on this host and in a fresh interpreter with Darwin tables: same '
+                   'outcome, unless a known reader that consults its table while decoding (%s) meets a differing code at its own '
+                   'position' % (len(names), ' and candidates' if len(names) > len(ENUM_READERS) else '', len(grid),
+                                 ', '.join(READ_WHILE_DECODING)))
+    ht = host_tables()
+    cases = []
+    for n in names:
+        if n not in D.all_handler_names():
+            continue
+        base = dict(D.make_case(rng, n), end=[0, 3, 0, 0], unprinted=True)
+        for pos in range(4):
+            for v in grid:
+                c = dict(base, start=list(base['start']))
+                c['start'][pos] = v
+                if pos != 0:
+                    c['start'][0] = 2        # a family / signal every host names alike
+                if pos != 1 and n in ('BSC_socket', 'BSC_socketpair', 'BSC_socket_delegate'):
+                    c['start'][1] = 1
+                cases.append(c)
+    A = host_texts(cases)
+    B = darwin_texts(cases)
+    for c, a, b in zip(cases, A, B):
+        sec['cases'] += 1
+        if a == b:
+            sec['distinct_nontrivial'] += 1 if a == 'decoded' else 0
+            continue
+        n = c['name']
+        known = explained_by_known_reader(n, c, ht)
+        if known in READ_WHILE_DECODING:
+            rep.add_failure('host:' + known, 'decoder %s (never printed): %r on this host, %r with Darwin tables' % (n, a, b),
+                            {'section': 'unprinted-records', 'case': c, 'table': known})
+        else:
+            rep.add_failure('host:new-dependence:' + n,
+                            'decoder %s on START words %s, decoded but never printed: %r on this host, %r with Darwin tables — a '
+                            'request that hides this record ends differently on the two hosts' % (n, c['start'], a, b),
+                            {'section': 'unprinted-records', 'case': c})
+
+
 def correspondence(rep, rng, tier):
     D.section_decoders(rep, rng, tier, per=2 if tier == 'quick' else 30, name='decoders', syntax=2 if tier == 'quick' else 40)
     ht = host_tables()
@@ -116,6 +172,7 @@ def correspondence(rep, rng, tier):
                             {'section': 'host-vs-darwin', 'case': c, 'table': tname, 'code': code})
     darwin_names(rep)
     scramble_search(rep, rng, tier)
+    unprinted_section(rep, rng, tier)
     ambient_section(rep, rng, tier)      # the host is also the process environment: terminal, locale, time zone, hash seed
     if rep.broken or tier == 'thorough':       # the theorems rule a new dependence out; search only when they no longer check
         targeted_search(rep, diffs, tier, ht)
@@ -416,6 +473,15 @@ def replay(path):
         if bad:
             print(f'VIOLATION property=C18 replay={path}')
         return 1 if bad else 0
+    if r['replay'].get('section') == 'unprinted-records':
+        c = r['replay']['case']
+        a, b = run(c), darwin_texts([c])[0]
+        print('decoded, never printed, on this host   :', a)
+        print('decoded, never printed, Darwin\'s tables:', b)
+        if a != b and explained_by_known_reader(c['name'], c, host_tables()) not in READ_WHILE_DECODING:
+            print(f'VIOLATION property=C18 replay={path}')
+            return 1
+        return 0
     c = r['replay']['case']
     if r['replay'].get('section') == 'darwin-names':
         b = darwin_texts([c])[0]
